@@ -1447,7 +1447,31 @@ def check_accessors(ctx, tu):
                 if rec == 'FixedBufferWriter':
                     al = [e for e in st.events if e[0] == 'alloc']
                     sp = size_param(f)
-                    if len(al) != 1 or sp is None or al[0][1] != Poly.atom(('param', sp)):
+                    if len(al) == 1 and al[0][1] is None and sp is not None:
+                        # no polynomial form: say what the expression is; max(size, c) is recognisably more than requested
+                        mk = tu.node(al[0][2])
+                        a0 = tu.call_parts(mk)[2][0] if mk is not None and tu.call_parts(mk)[2] else None
+                        x0 = tu.strip(a0, casts=True) if a0 is not None else None
+                        txt = tu.show(a0) if a0 is not None else '?'
+                        mx = None
+                        if x0 is not None and x0.get('kind') == 'CallExpr' and tu.sd(x0).get('q') == 'std::max' and \
+                                len(tu.call_parts(x0)[2]) == 2:
+                            vs = [Evaluator(tu, lambda n_, d_: Poly.atom(('param', sp)) if any(p_['id'] == d_ and p_['name'] == sp
+                                                                                             for p_ in f['params']) else None).ev(y)
+                                  for y in tu.call_parts(x0)[2]]
+                            cs = [v.const_value() for v in vs if v is not None and v.const_value() is not None]
+                            if Poly.atom(('param', sp)) in vs and len(cs) == 1 and cs[0] >= 1:
+                                mx = cs[0]
+                        if mx is not None:
+                            ctx.violation(R, inst, 'the buffer is allocated with `%s` bytes, not with the requested size: for %s < %d '
+                                          'the writer owns %d byte(s) although fewer were asked for, so a FixedBufferWriter(0) accepts '
+                                          'a write that does not fit in the capacity it was given and available() / the written view '
+                                          'disagree with the request' % (txt, sp, mx, mx), tu.loc(x0),
+                                          key='%s|%s|%s|capacity' % (R, tu.fn_file(f), rec))
+                        else:
+                            ctx.undecided(R, inst, 'the allocation size `%s` has no normal form' % txt, tu.fn_loc(f))
+                        good = False
+                    elif len(al) != 1 or sp is None or al[0][1] != Poly.atom(('param', sp)):
                         ctx.violation(R, inst, 'the buffer is allocated with `%s` bytes, required the requested size'
                                       % (show(al[0][1]) if al else 'no allocation'), tu.fn_loc(f),
                                       key='%s|%s|%s|capacity' % (R, tu.fn_file(f), rec))
@@ -1512,10 +1536,24 @@ def check_no_cached_buffer_state(ctx, tu, seen):
         elif caches:
             for _, fld, nid, v in caches:
                 what = 'a pointer into the buffer storage' if (v is None or is_ptr(v)) and not isinstance(v, Poly) else 'the buffer size'
+                # members that move the cursor but leave the cached value alone make the two disagree even without a writer
+                def writes_(fn_, name_):
+                    for y in tu.walk(tu.body(fn_)):
+                        if y.get('kind') in ('BinaryOperator', 'CompoundAssignOperator', 'UnaryOperator') and \
+                                y.get('opcode') in ('=', '+=', '-=', '++', '--') and tu.kids(y) and \
+                                tu.member_of_this(tu.kids(y)[0]) == name_:
+                            return True
+                    return False
+                lag = sorted({g_['q'].split('::')[-1] for g_ in tu.functions.values()
+                              if g_.get('rec') == f.get('rec') and not g_.get('dep') and tu.body(g_) is not None and not g_.get('ctor')
+                              and writes_(g_, 'cursor') and not writes_(g_, fld)})
+                extra = ('; moreover %s advance(s) `cursor` without adjusting `%s`, so after such a call the two disagree and the '
+                         'bounds tests that use `%s` accept requests past the end' % (', '.join('`%s`' % q_ for q_ in lag), fld, fld)) \
+                    if lag and what == 'the buffer size' else ''
                 ctx.violation(R, inst, 'member `%s` is set to %s; the array behind the shared_ptr is grown (and its storage '
                               'moved) by the writer that shares it, so the stored value goes stale between calls: a reader '
-                              'attached before further writes reads freed memory / reports end() at the old size'
-                              % (fld, what), tu.loc(nid) if nid else tu.fn_loc(f),
+                              'attached before further writes reads freed memory / reports end() at the old size%s'
+                              % (fld, what, extra), tu.loc(nid) if nid else tu.fn_loc(f),
                               key='%s|%s|%s|cached-buffer-state' % (R, tu.fn_file(f), short(f.get('rec'))))
         else:
             ctx.ok(R, inst, 'no member receives a value derived from buffer->begin()/data()/size()', tu.fn_loc(f))
